@@ -135,7 +135,12 @@ func (g *gen) recvOracle(b blobT, kinds []string, order []int, late string, out 
 	isErr := strings.HasPrefix(out, "err ")
 	// what the write replicas really hold now / held at return (the answer's held= list was computed
 	// from the real sub-stores with a content comparison)
-	heldStr := out[strings.Index(out, "held=")+5:]
+	heldStr := strings.Fields(out[strings.Index(out, "held=")+5:])[0]
+	if strings.HasSuffix(out, " unforced") {
+		// ReceiveBlob returned before it had started every upload: nothing to force, the answer and the
+		// holders at return are judged as they are
+		g.r.Hit("recv:returned-before-all-uploads-started")
+	}
 	held := 0
 	if heldStr != "-" {
 		held = len(strings.Split(heldStr, ","))
@@ -216,6 +221,13 @@ func (g *gen) fetchOracle(b blob.Ref, out string) {
 		g.r.Hit("mech:fetch-ordered-fallback")
 	}
 	if ok {
+		for _, pb := range g.pool {
+			if pb.br == b && !strings.HasPrefix(out, fmt.Sprintf("ok %d ", len(pb.content))) {
+				g.r.Hit("fetch:served-a-truncated-copy")
+			}
+		}
+	}
+	if ok {
 		g.r.Hit("fetch:ok")
 	} else {
 		g.r.Hit("fetch:fail")
@@ -233,7 +245,28 @@ func parseSRs(s string) []string {
 	return strings.Split(s, ",")
 }
 
-// statOracle: "stat reports it exactly once however the replicas' contents overlap"
+// heldSizes: the sizes of the copies of br on the reachable read replicas
+func (g *gen) heldSizes(br blob.Ref) map[int]bool {
+	m := map[int]bool{}
+	for _, id := range g.w.reads {
+		if g.w.subs[id].down.Load() {
+			continue
+		}
+		if c, ok := g.w.subs[id].get(br); ok {
+			m[len(c)] = true
+		}
+	}
+	return m
+}
+
+func splitEntry(e string) (string, int) {
+	k, sz, _ := strings.Cut(e, ":")
+	n, _ := natArg(sz)
+	return k, n
+}
+
+// statOracle: "stat reports it exactly once however the replicas' contents overlap" – keys exactly once;
+// when the replicas disagree about the size (a truncated copy) the size must be one of those held
 func (g *gen) statOracle(refs []blob.Ref, out string) {
 	f := strings.Fields(out)
 	if len(f) != 2 {
@@ -241,8 +274,11 @@ func (g *gen) statOracle(refs []blob.Ref, out string) {
 		return
 	}
 	count := map[string]int{}
+	sizeOf := map[string]int{}
 	for _, e := range parseSRs(f[0]) {
-		count[e]++
+		k, sz := splitEntry(e)
+		count[k]++
+		sizeOf[k] = sz
 	}
 	anyDown := false
 	for _, id := range g.w.reads {
@@ -250,38 +286,41 @@ func (g *gen) statOracle(refs []blob.Ref, out string) {
 			anyDown = true
 		}
 	}
-	dedup := false
-	want := map[string]bool{}
+	dedup, conflict := false, false
+	want := map[string]map[int]bool{}
 	for _, br := range refs {
 		holders := 0
-		size := 0
 		for _, id := range g.w.reads {
 			if g.w.subs[id].down.Load() {
 				continue
 			}
-			if c, ok := g.w.subs[id].mem.BlobContents(br); ok {
+			if _, ok := g.w.subs[id].get(br); ok {
 				holders++
-				size = len(c)
 			}
 		}
 		if holders > 1 {
 			dedup = true
 		}
 		if holders > 0 {
-			want[fmt.Sprintf("%s:%d", br.Digest(), size)] = true
+			want[br.Digest()] = g.heldSizes(br)
+			if len(want[br.Digest()]) > 1 {
+				conflict = true
+			}
 		}
 	}
-	for e := range want {
+	for k, sizes := range want {
 		switch {
-		case count[e] == 0:
-			g.fail("stat-missing", e, "reported once", out)
-		case count[e] > 1:
-			g.fail("stat-duplicate", e, "reported once", out)
+		case count[k] == 0:
+			g.fail("stat-missing", k, "reported once", out)
+		case count[k] > 1:
+			g.fail("stat-duplicate", k, "reported once", out)
+		case !sizes[sizeOf[k]]:
+			g.fail("stat-size-not-held", k, fmt.Sprintf("one of %v", sizes), out)
 		}
 	}
-	for e := range count {
-		if !want[e] {
-			g.fail("stat-phantom", e, "not reported", out)
+	for k := range count {
+		if want[k] == nil {
+			g.fail("stat-phantom", k, "not reported", out)
 		}
 	}
 	if !anyDown && f[1] != "ok" {
@@ -290,11 +329,15 @@ func (g *gen) statOracle(refs []blob.Ref, out string) {
 	if dedup {
 		g.r.Hit("mech:stat-first-reporter-wins-dedup")
 	}
-	g.r.Distinct(fmt.Sprintf("stat/%d/%d/%v/%v", len(refs), len(want), dedup, anyDown))
+	if conflict {
+		g.r.Hit("stat:replicas-disagree-about-size")
+	}
+	g.r.Distinct(fmt.Sprintf("stat/%d/%d/%v/%v/%v", len(refs), len(want), dedup, anyDown, conflict))
 }
 
 // enumOracle: "enumerate reports it exactly once however the replicas' contents overlap":
-// the ascending duplicate-free union of the read replicas' contents, after the cursor, cut at limit
+// the refs sent are the ascending duplicate-free union of the read replicas' refs, after the cursor, cut
+// at limit; the size sent with a ref is one of the sizes held for it (first source wins - unspecified)
 func (g *gen) enumOracle(after string, limit int, out string) {
 	if out == "racy" {
 		return
@@ -304,57 +347,66 @@ func (g *gen) enumOracle(after string, limit int, out string) {
 		g.fail("enum-bad-result", "", "<list> ok", out)
 		return
 	}
-	union := map[string]bool{}
-	total := 0
+	sizes := map[string]map[int]bool{}
+	overlap, conflict := false, false
 	for _, id := range g.w.reads {
 		for _, sb := range g.w.contents(id) {
-			total++
-			if after == "-" || sb.Ref.Digest() > after {
-				union[fmt.Sprintf("%s:%d", sb.Ref.Digest(), sb.Size)] = true
-			}
-		}
-	}
-	all := hk.SortedKeys(union)
-	overlap := false
-	{
-		seen := map[string]bool{}
-		for _, id := range g.w.reads {
-			for _, sb := range g.w.contents(id) {
-				if seen[sb.Ref.Digest()] {
-					overlap = true
+			k := sb.Ref.Digest()
+			if sizes[k] == nil {
+				sizes[k] = map[int]bool{}
+			} else {
+				overlap = true
+				if !sizes[k][int(sb.Size)] {
+					conflict = true
 				}
-				seen[sb.Ref.Digest()] = true
 			}
+			sizes[k][int(sb.Size)] = true
 		}
 	}
+	var all []string
+	for k := range sizes {
+		if after == "-" || k > after {
+			all = append(all, k)
+		}
+	}
+	sort.Strings(all)
 	exp := all
 	if len(exp) > limit {
 		exp = exp[:limit]
 		g.r.Hit("enum:cut-at-limit")
 	}
-	expS := strings.Join(exp, ",")
-	if len(exp) == 0 {
-		expS = "-"
+	var got []string
+	seen := map[string]bool{}
+	dup, badSize := "", ""
+	for _, e := range parseSRs(f[0]) {
+		k, sz := splitEntry(e)
+		if seen[k] {
+			dup = k
+		}
+		seen[k] = true
+		if sizes[k] != nil && !sizes[k][sz] {
+			badSize = e
+		}
+		got = append(got, k)
 	}
-	if f[0] != expS {
-		sig := "enum-mismatch"
-		got := parseSRs(f[0])
-		seen := map[string]bool{}
-		for _, e := range got {
-			if seen[e] {
-				sig = "enum-duplicate"
-			}
-			seen[e] = true
-		}
-		if sig == "enum-mismatch" && !sort.StringsAreSorted(got) {
-			sig = "enum-out-of-order"
-		}
-		g.fail(sig, fmt.Sprintf("after=%s limit=%d", after, limit), expS, f[0])
+	desc := fmt.Sprintf("after=%s limit=%d", after, limit)
+	switch {
+	case dup != "":
+		g.fail("enum-duplicate", desc+" ref sent twice: "+dup, strings.Join(exp, ","), f[0])
+	case !sort.StringsAreSorted(got):
+		g.fail("enum-out-of-order", desc, strings.Join(exp, ","), f[0])
+	case strings.Join(got, ",") != strings.Join(exp, ","):
+		g.fail("enum-mismatch", desc, strings.Join(exp, ","), f[0])
+	case badSize != "":
+		g.fail("enum-size-not-held", desc+" "+badSize, "a size held by a read replica", f[0])
 	}
 	if overlap {
 		g.r.Hit("enum:overlapping-replicas-merged")
 	}
-	g.r.Distinct(fmt.Sprintf("enum/%d/%d/%d/%v/%v", len(g.w.reads), len(all), limit, overlap, after == "-"))
+	if conflict {
+		g.r.Hit("enum:replicas-disagree-about-size")
+	}
+	g.r.Distinct(fmt.Sprintf("enum/%d/%d/%d/%v/%v/%v", len(g.w.reads), len(all), limit, overlap, after == "-", conflict))
 }
 
 // cfgOracle: the constructor must not accept a quorum it can never honour
@@ -376,7 +428,7 @@ func (g *gen) cfgOracle(minArg string, nWrites int, out string) {
 // ---- case families ---------------------------------------------------------------------------
 
 var kinds3 = []string{"ok", "ws", "err"}
-var kinds5 = []string{"ok", "ok", "ok", "ws", "w0", "err", "err", "es"}
+var kinds5 = []string{"ok", "ok", "ok", "ws", "w0", "err", "err", "es", "tr"}
 
 // exhaustive: n ≤ 4 write replicas, every min in 1..n, all 3^n assignments of {ok, wrong size, error},
 // all n! arrival orders.  thorough adds: all 5^n assignments of the five wrapper behaviours for n ≤ 3
@@ -408,14 +460,16 @@ func (g *gen) exhaustive() {
 			}
 		}
 	}
+	g.readOnlyPrepopulated()
+	g.sizeConflicts()
 	if !g.r.Thorough() {
 		return
 	}
-	all5 := []string{"ok", "ws", "w0", "err", "es"}
+	all5 := []string{"ok", "ws", "w0", "err", "es", "tr"}
 	for n := 1; n <= 3; n++ {
 		ps := perms(n)
 		for min := 1; min <= n; min++ {
-			for a := 0; a < pow(5, n); a++ {
+			for a := 0; a < pow(len(all5), n); a++ {
 				for _, order := range ps {
 					g.exhaustiveCase(n, min, assign(all5, n, a), order, other)
 				}
@@ -434,12 +488,15 @@ func (g *gen) exhaustive() {
 		}
 	}
 	for k := 0; k < 600; k++ {
-		g.exhaustiveCase(6, 1+g.r.R.Intn(6), assign(all5, 6, g.r.R.Intn(pow(5, 6))), g.shuffle(upto(6)), other)
+		g.exhaustiveCase(6, 1+g.r.R.Intn(6), assign(all5, 6, g.r.R.Intn(pow(len(all5), 6))), g.shuffle(upto(6)), other)
 	}
 }
 
 func (g *gen) exhaustiveCase(n, min int, kinds []string, order []int, other blobT) {
 	b := g.pool[0]
+	if len(b.content) == 0 {
+		b = g.pool[3]
+	}
 	g.newCase(fmt.Sprintf("ex n=%d min=%d kinds=%s order=%v", n, min, strings.Join(kinds, ","), order))
 	g.op(fmt.Sprintf("stores %d", n+1))
 	writes := g.shuffle(upto(n))
@@ -450,7 +507,11 @@ func (g *gen) exhaustiveCase(n, min int, kinds []string, order []int, other blob
 	// overlapping pre-populated contents
 	for i := 0; i <= n; i++ {
 		if g.r.R.Chance(40) {
-			g.op(fmt.Sprintf("put %d %s %s", i, other.key, other.chex))
+			verb := "put"
+			if len(other.content) > 0 && g.r.R.Chance(25) {
+				verb = "puttr" // this replica holds a truncated copy: the replicas disagree about the size
+			}
+			g.op(fmt.Sprintf("%s %d %s %s", verb, i, other.key, other.chex))
 		}
 	}
 	if g.r.R.Chance(15) {
@@ -473,6 +534,13 @@ func (g *gen) exhaustiveCase(n, min int, kinds []string, order []int, other blob
 	out = g.op(fmt.Sprintf("recv %s %s %s %s", b.key, b.chex, arrivals(order, kinds), late))
 	g.recvOracle(b, kinds, order, late, out)
 	g.op("dump")
+	if !strings.HasPrefix(out, "ack ") || g.r.R.Chance(25) {
+		// the client retries while the same replicas still fail: the copies left behind by the first
+		// attempt must not turn a missed quorum into a success
+		out = g.op(fmt.Sprintf("recv %s %s %s run", b.key, b.chex, arrivals(order, kinds)))
+		g.recvOracle(b, kinds, order, "run", out)
+		g.r.Hit("recv:retry-after-first-attempt")
+	}
 	out = g.op("fetch " + b.key)
 	g.fetchOracle(b.br, out)
 	out = g.op(fmt.Sprintf("stat %s,%s -", b.key, other.key))
@@ -481,6 +549,100 @@ func (g *gen) exhaustiveCase(n, min int, kinds []string, order []int, other blob
 	g.enumOracle("-", 10, out)
 	if len(g.r.Res.Samples) < 3 && n == 3 {
 		g.r.Sample(g.r.CaseOps())
+	}
+}
+
+// readOnlyPrepopulated: read set ≠ write set, the blob is already on a backend that is only read from;
+// every assignment of {ok, wrong size, error} to n ≤ 3 writers, every min: the copy on the read-only
+// backend must not count towards the write quorum
+func (g *gen) readOnlyPrepopulated() {
+	b := g.pool[0]
+	for n := 1; n <= 3; n++ {
+		for min := 1; min <= n; min++ {
+			total := 1
+			for i := 0; i < n; i++ {
+				total *= 3
+			}
+			for a := 0; a < total; a++ {
+				kinds := make([]string, n)
+				x := a
+				for i := range kinds {
+					kinds[i] = kinds3[x%3]
+					x /= 3
+				}
+				g.newCase(fmt.Sprintf("ro n=%d min=%d kinds=%s", n, min, strings.Join(kinds, ",")))
+				g.op(fmt.Sprintf("stores %d", n+1))
+				g.op(fmt.Sprintf("put %d %s %s", n, b.key, b.chex))
+				reads := []int{n}
+				if g.r.R.Bool() {
+					reads = g.shuffle(append(g.subset(n), n))
+				}
+				out := g.op(fmt.Sprintf("cfg %d %s %s", min, showNats(g.shuffle(upto(n))), showNats(reads)))
+				g.cfgOracle(fmt.Sprint(min), n, out)
+				order := g.shuffle(upto(n))
+				out = g.op(fmt.Sprintf("recv %s %s %s run", b.key, b.chex, arrivals(order, kinds)))
+				g.recvOracle(b, kinds, order, "run", out)
+				g.r.Hit("recv:blob-already-on-read-only-backend")
+				out = g.op("fetch " + b.key)
+				g.fetchOracle(b.br, out)
+				g.op("dump")
+			}
+		}
+	}
+}
+
+// sizeConflicts: worlds in which two read replicas hold the same ref with DIFFERENT sizes – produced by a
+// receive in which one replica is left with a truncated copy (and reports its size: a "wrong size"
+// failure) while the others reach the quorum, or pre-populated – then stat and enumerate
+func (g *gen) sizeConflicts() {
+	var b, other blobT
+	for _, pb := range g.pool {
+		if len(pb.content) > 0 {
+			if b.key == "" {
+				b = pb
+			} else if other.key == "" {
+				other = pb
+			}
+		}
+	}
+	for n := 2; n <= 4; n++ {
+		for trPos := 0; trPos < n; trPos++ {
+			for _, order := range perms(n) {
+				if n == 4 && !g.r.Thorough() && g.r.R.Chance(75) {
+					continue
+				}
+				kinds := make([]string, n)
+				for i := range kinds {
+					kinds[i] = "ok"
+				}
+				kinds[trPos] = "tr"
+				min := 1 + g.r.R.Intn(n-1)
+				g.newCase(fmt.Sprintf("sz n=%d tr=%d order=%v", n, trPos, order))
+				g.op(fmt.Sprintf("stores %d", n))
+				if g.r.R.Bool() {
+					g.op(fmt.Sprintf("puttr %d %s %s", g.r.R.Intn(n), other.key, other.chex))
+					g.op(fmt.Sprintf("put %d %s %s", g.r.R.Intn(n), other.key, other.chex))
+				}
+				reads := "-"
+				if g.r.R.Bool() {
+					reads = showNats(g.shuffle(upto(n)))
+				}
+				out := g.op(fmt.Sprintf("cfg %d %s %s", min, showNats(g.shuffle(upto(n))), reads))
+				g.cfgOracle(fmt.Sprint(min), n, out)
+				out = g.op(fmt.Sprintf("recv %s %s %s run", b.key, b.chex, arrivals(order, kinds)))
+				g.recvOracle(b, kinds, order, "run", out)
+				g.op("dump")
+				out = g.op(fmt.Sprintf("stat %s,%s %s", b.key, other.key, showNats(g.shuffle(upto(n)))))
+				g.statOracle([]blob.Ref{b.br, other.br}, out)
+				out = g.op("enum - 10")
+				g.enumOracle("-", 10, out)
+				limit := 1 + g.r.R.Intn(2)
+				out = g.op(fmt.Sprintf("enum - %d", limit))
+				g.enumOracle("-", limit, out)
+				out = g.op("fetch " + b.key)
+				g.fetchOracle(b.br, out)
+			}
+		}
 	}
 }
 
@@ -493,7 +655,11 @@ func (g *gen) random(nCases int) {
 		for _, b := range g.pool {
 			for i := 0; i < S; i++ {
 				if g.r.R.Chance(25) {
-					g.op(fmt.Sprintf("put %d %s %s", i, b.key, b.chex))
+					verb := "put"
+					if len(b.content) > 0 && g.r.R.Chance(20) {
+						verb = "puttr"
+					}
+					g.op(fmt.Sprintf("%s %d %s %s", verb, i, b.key, b.chex))
 				}
 			}
 		}
@@ -565,6 +731,9 @@ func (g *gen) randomOp(S, n int) {
 		kinds := make([]string, n)
 		for i := range kinds {
 			kinds[i] = g.r.R.Pick(kinds5)
+			if kinds[i] == "tr" && len(b.content) == 0 {
+				kinds[i] = "w0" // the empty blob cannot be truncated
+			}
 		}
 		order := g.shuffle(upto(n))
 		late := "run"
@@ -617,6 +786,8 @@ func (g *gen) malformed() {
 		"stores", "stores 9", "stores x", "stores +1", "stores 1 2",
 		"put 3 " + b.key + " " + b.chex, "put 0 " + b.key[:54] + " " + b.chex, "put 0 " + strings.ToUpper(b.key) + " " + b.chex,
 		"put 0 " + b.key, "put x " + b.key + " " + b.chex, "put 0 " + b.key + " zz",
+		"puttr 0 " + mkBlob(nil).key + " -", "puttr 3 " + b.key + " " + b.chex, "puttr 0 " + b.key,
+		"recv " + mkBlob(nil).key + " - 0:ok,1:tr,2:ok run",
 		"cfg", "cfg x 0,1 -", "cfg 1 0,0 -", "cfg 1 0,1 1,1", "cfg 1 0;1 -", "cfg 1 0,1", "cfg -x 0 -", "cfg 1 0, -",
 		"down 3 1", "down 0 2", "down 0", "down x 1",
 		"recv " + b.key + " " + b.chex + " 0:ok,1:ok run", "recv " + b.key + " " + b.chex + " 0:ok,1:ok,1:ok run",
